@@ -21,6 +21,15 @@ func init() {
 			[]string{"the workload generator emits only call shapes the Readme / plugin documentation list as supported (DESIGN.md appendix A); a shape outside what it draws is not covered"})
 	}
 	genCases["C01"] = c01Case
+	genDirected["C01"] = func(ctx *genCtx, in *DirectedInput, dir string) *genViolation {
+		writeWorld(dir, in.Versions[0])
+		args := in.Args
+		if len(args) == 0 {
+			args = []string{"./p"}
+		}
+		_, v := c01Oracle(ctx, dir, in.Versions[0], in.Flags, args, &Plan{MapMode: "identity"}, 0)
+		return v
+	}
 }
 
 func drawPlan(t *tape.Tape) *Plan {
@@ -101,7 +110,7 @@ func c01Case(ctx *genCtx, ts *tape.Set, dir string) *genResult {
 	res.Hash = worldHash(files, fmt.Sprint(*plan))
 	ncalls := len(w.Calls) + len(w.QCalls)
 	res.Nontrivial = ncalls >= 2 || w.HasExt || w.HasQ
-	r := runGoderive(ctx.bins.inst, dir, worldPkgs(w), plan, gmp)
+	r, v := c01Oracle(ctx, dir, files, nil, worldPkgs(w), plan, gmp)
 	res.count(r)
 	if strings.Contains(r.Stderr, "could not yet generate") {
 		res.probe("reload_pass_2")
@@ -112,28 +121,33 @@ func c01Case(ctx *genCtx, ts *tape.Set, dir string) *genResult {
 	if w.HasQ {
 		res.probe("world.two_packages")
 	}
-	facts := map[string]string{"stderr": r.Stderr, "sources": joinFiles(userSources(files))}
-	if m := noCrash(r); m != "" {
+	if v != nil && v.Clause == "crash" {
 		res.SawPanic = true
-		res.V = &genViolation{Clause: "crash", Detail: m, Facts: facts}
-		return res
+	}
+	res.V = v
+	return res
+}
+
+// c01Oracle: one fault-free execution on files already written to dir.
+func c01Oracle(ctx *genCtx, dir string, files map[string]string, flags, pkgs []string, plan *Plan, gmp int) (*genRun, *genViolation) {
+	r := runGoderive(ctx.bins.inst, dir, append(append([]string{}, flags...), pkgs...), plan, gmp)
+	facts := map[string]string{"stderr": r.Stderr, "sources": joinFiles(userSources(files)), "typeerrors": ""}
+	if m := noCrash(r); m != "" {
+		return r, &genViolation{Clause: "crash", Detail: m, Facts: facts}
 	}
 	if r.Exit != 0 {
-		res.V = &genViolation{Clause: "rejected-supported", Detail: "goderive exit " + fmt.Sprint(r.Exit) + ": " + firstLines(r.Stderr, 3), Facts: facts}
-		return res
+		return r, &genViolation{Clause: "rejected-supported", Detail: "goderive exit " + fmt.Sprint(r.Exit) + ": " + firstLines(r.Stderr, 3), Facts: facts}
 	}
-	if errs := typecheck(dir, worldPkgs(w)...); len(errs) > 0 {
+	if errs := typecheck(dir, pkgs...); len(errs) > 0 {
 		facts["typeerrors"] = strings.Join(errs, "\n")
-		res.V = &genViolation{Clause: "not-typecheck", Detail: strings.Join(errs, " | "), Facts: facts}
-		return res
+		return r, &genViolation{Clause: "not-typecheck", Detail: strings.Join(errs, " | "), Facts: facts}
 	}
 	for _, rel := range sortedKeysStr(derivedFiles(dir)) {
 		if m := gofmtClean(filepath.Join(dir, rel)); m != "" {
-			res.V = &genViolation{Clause: "not-gofmt", Detail: rel + ": " + m, Facts: facts}
-			return res
+			return r, &genViolation{Clause: "not-gofmt", Detail: rel + ": " + m, Facts: facts}
 		}
 	}
-	return res
+	return r, nil
 }
 
 func joinFiles(files map[string]string) string {
